@@ -93,6 +93,40 @@ def build(cfg):
     raise ValueError(c)
 
 
+def build_kw(cfg):
+    """Construct the real object passing every argument by its documented
+    keyword name."""
+    c, p, N = cfg.cls, cfg.params, cfg.N
+    with common.quiet():
+        if c == "SingleMemory":
+            return API.SingleMemoryStorageSchedule()
+        if c == "SingleDiskCopy":
+            return API.SingleDiskStorageSchedule(move_data=False)
+        if c == "SingleDiskMove":
+            return API.SingleDiskStorageSchedule(move_data=True)
+        if c == "NoneSchedule":
+            return API.NoneCheckpointSchedule()
+        if c == "Multistage":
+            return API.MultistageCheckpointSchedule(
+                max_n=N, snapshots_in_ram=p[0], snapshots_on_disk=p[1],
+                trajectory=p[2])
+        if c == "Mixed":
+            return API.MixedCheckpointSchedule(max_n=N, snapshots=p[0],
+                                               storage=ST[p[1]])
+        if c == "TwoLevel":
+            return API.TwoLevelCheckpointSchedule(
+                period=p[0], binomial_snapshots=p[1],
+                binomial_storage=ST[p[2]], binomial_trajectory=p[3])
+        if c in ("Revolve", "DiskRevolve", "PeriodicDiskRevolve"):
+            return getattr(API, c)(max_n=N, snapshots_in_ram=p[0], uf=p[1],
+                                   ub=p[2], wd=p[3], rd=p[4])
+        if c == "HRevolve":
+            return API.HRevolve(max_n=N, snapshots_in_ram=p[0],
+                                snapshots_on_disk=p[1], uf=p[2], ub=p[3],
+                                wd=p[4], rd=p[5])
+    raise ValueError(c)
+
+
 def class_info(cfg):
     c, p, N = cfg.cls, cfg.params, cfg.N
     if c == "SingleMemory":
@@ -146,6 +180,7 @@ class Run:
         self.pass_slices = []      # (start, end) indices of each adjoint pass
         self.ef_index = None
         self.flags = []            # (index, is_exhausted, is_running)
+        self.was_final = []        # max_n known when action i was emitted
 
     def obs_fail(self, props, code, msg, index=None, action=None):
         from .machine import Failure
@@ -198,6 +233,13 @@ def drive(cfg, observers=True, post_calls=3):
         for t in (RAM, DISK, WORK, NONE):
             try:
                 out[t] = sched.uses_storage_type(t)
+                # ... and by the documented parameter name
+                kw = sched.uses_storage_type(storage_type=t)
+                if bool(kw) != bool(out[t]):
+                    run.obs_fail(["C11"], "keyword_call_differs",
+                                 f"{where}: uses_storage_type({t!r}) is "
+                                 f"{out[t]!r} but with storage_type= it is "
+                                 f"{kw!r}")
             except Exception as e:  # noqa: BLE001
                 out[t] = None
                 run.obs_fail(["C11"], "uses_storage_type_raises",
@@ -269,9 +311,12 @@ def drive(cfg, observers=True, post_calls=3):
             if len(run.actions) == 0:
                 run.obs_fail(["C17"], "raises_at_first_next", msg)
             else:
-                run.obs_fail(["C02", "C17"], "raises_midstream", msg)
+                run.obs_fail(["C02", "C17"] + (["C09"] if M.passes_done >= 1
+                                               else []),
+                             "raises_midstream", msg)
             break
         run.actions.append(a)
+        run.was_final.append(was_final)
         idx = len(run.actions) - 1
         fs = M.step(a, was_final)
         run.failures.extend(fs)
@@ -288,7 +333,7 @@ def drive(cfg, observers=True, post_calls=3):
             try:
                 # a fresh int object: equal to, but not identical with, any
                 # integer the schedule holds
-                sched.finalize(int(str(N)))
+                sched.finalize(n=int(str(N)))
                 finalised = True
             except Exception as e:  # noqa: BLE001
                 run.obs_fail(["C08", "C10"], "finalize_rejected",
@@ -540,10 +585,20 @@ def box_large(tier):
         out.append(Config("Mixed", (5, "DISK"), n))
         out.append(Config("TwoLevel", (100, 2, "RAM", "maximum"), n, 2))
         out.append(Config("TwoLevel", (7, 3, "DISK", "revolve"), n, 2))
+        out.append(Config("TwoLevel", (129, 0, "DISK", "maximum"), n, 2))
+        out.append(Config("TwoLevel", (200, 1, "RAM", "revolve"), n, 2))
         out.append(Config("Revolve", (5,) + d, n))
         out.append(Config("HRevolve", (3, 2) + d, n))
         out.append(Config("DiskRevolve", (2,) + d, n))
         out.append(Config("PeriodicDiskRevolve", (2,) + d, n))
+    # many adjoint calculations on one object ("arbitrarily many")
+    many = 1300 if tier == "quick" else 3500
+    out.append(Config("SingleMemory", (), 1, many))
+    out.append(Config("SingleMemory", (), 3, many))
+    out.append(Config("SingleDiskCopy", (), 1, many))
+    out.append(Config("SingleDiskCopy", (), 2, many))
+    out.append(Config("TwoLevel", (1, 0, "DISK", "maximum"), 1, many))
+    out.append(Config("TwoLevel", (3, 1, "RAM", "maximum"), 4, many))
     if tier != "quick":
         out.append(Config("PeriodicDiskRevolve", (3,) + d, 65600))
         out.append(Config("PeriodicDiskRevolve", (2,) + d, 65545))
